@@ -516,7 +516,15 @@ def real_download(plan):
         net.listen('10.0.0.1', 21, lambda: ScriptedFtp(net, plan))
         net.listen('10.0.0.1', 2020, Data)
         with net:
-            client = Client(connection_pool=ConnectionPool(resolver=fakenet.FakeResolver()))
+            if plan.get('timeout'):
+                # --read-timeout: a stalled data connection must end in a timeout error, never be taken for end of data
+                import functools
+                from wpull.network.connection import Connection
+                pool = ConnectionPool(resolver=fakenet.FakeResolver(),
+                                      connection_factory=functools.partial(Connection, timeout=plan['timeout']))
+            else:
+                pool = ConnectionPool(resolver=fakenet.FakeResolver())
+            client = Client(connection_pool=pool)
             request = Request('ftp://h/dir/' if plan['listing'] else 'ftp://h/dir/f.bin')
             if plan.get('restart'):
                 request.restart_value = plan['restart']
@@ -556,6 +564,12 @@ def real_download(plan):
                     return await compat._ensure(session.download(out))
                 task = asyncio.ensure_future(run_it())
                 done = await fakenet.settle(task, feeders, extra=300)
+                if not done and plan.get('timeout'):
+                    for _ in range(8):                      # let real time pass: the close timer works on the loop clock
+                        await asyncio.sleep(plan['timeout'])
+                        done = await fakenet.settle(task, feeders, extra=50)
+                        if done:
+                            break
                 if not done:
                     task.cancel()
                     try:
@@ -593,11 +607,15 @@ def stream_download(ctx, n):
                       'closing': fakenet.segment(closing, fakenet.random_cuts(rng, len(closing))),
                       'glue': rng.random() < 0.4, 'yields': rng.choice([0, 1, 3]),
                       'prior_abort': rng.choice([None, None, 'listener', 'cancel']), 'cancel_after': rng.choice([6, 9, 12, 15, 20]),
+                      'timeout': 0.03 if (r >= 0.85 and rng.random() < 0.6) else None,
                       'restart': rng.choice([None, None, 3])})
-    reqs = ['ftp transfer %s %s %s' % (enc_segs(p['dsegs']), 'R' if p['end'] == 'reset' else 'T' if p['end'] else 'F', enc_segs(p['closing'])) for p in plans]
+    reqs = ['ftp transfer %s %s %s' % (enc_segs(p['dsegs']), 'R' if (p['end'] == 'reset' or (p['end'] is False and p.get('timeout'))) else 'T' if p['end'] else 'F',
+                                       enc_segs(p['closing'])) for p in plans]
     replies = ctx.model.ask(reqs)
     for p, rep in zip(plans, replies):
         res = real_download(p)
+        if res[0] == 'exc' and res[1] == 'NetworkTimedOut':
+            res = ('exc', 'NetworkError')          # a timeout is a network error (the model has one kind)
         data = b''.join(p['dsegs'])
         ctx.case(('download', repr(sorted(p.items()))), tags=['download:' + res[0] + (':listing' if p['listing'] else ''), 'download:end=%s' % p['end']])
         case = dict(p, stream='download')
@@ -612,6 +630,8 @@ def stream_download(ctx, n):
         if p.get('prior_abort') and not p['listing']:
             # independent of the model: what an abandoned earlier fetch left behind must not change this one
             alone = real_download(dict(p, prior_abort=None))
+            if alone[0] == 'exc' and alone[1] == 'NetworkTimedOut':
+                alone = ('exc', 'NetworkError')
             if alone != res:
                 ctx.fail('reply-of-another-command', 'Session.abort', case,
                          'after an abandoned fetch (%s) on the same client this fetch ended as %r; on its own it ends as %r'
@@ -680,6 +700,8 @@ def replay(ctx, case, kind=None, where=None):
             ctx.fail('premature-complete', 'Session.download', case, 'session reported a completed transfer: data end=%s reply %s' % (case['end'], res[2]))
         if case.get('prior_abort') and not case['listing']:
             alone = real_download(dict(case, prior_abort=None))
+            norm_ = lambda x: ('exc', 'NetworkError') if x[:2] == ('exc', 'NetworkTimedOut') else x   # noqa: E731
+            alone, res = norm_(alone), norm_(res)
             if alone != res:
                 ctx.fail('reply-of-another-command', 'Session.abort', case, 'with the abandoned earlier fetch: %r; alone: %r' % (res[:1] + res[2:], alone[:1] + alone[2:]))
     elif s == 'transfer':
